@@ -387,6 +387,22 @@ def rule_discriminants(ctx):
     rel = "impl/src/try_from.rs"
     fn = A.get_fn(ctx.files, rel, "<Expansion as ToTokens>::to_tokens")
     w = ctx.where(fn.file, fn.node)
+    # the impl is emitted for every enum: `to_tokens` has no early exit (an enum without unit variants still gets
+    # `TryFrom<repr>` - every integer is an `Err`)
+    ctx.instance("disc:no-early-exit")
+    for r_, ps in A.find(fn.block, "Expr::Return"):
+        iff = next((p for p in reversed(ps) if A.kind(p) == "Expr::If"), None)
+        # the one documented exit: without `#[try_from(repr)]` the derive generates nothing
+        if iff is not None and A.render(iff["cond"]) in ("self.attr.is_none()", "!self.attr.is_some()"):
+            continue
+        if not any(A.kind(p) == "Expr::Closure" for p in ps):
+            ctx.report(
+                "disc:early-exit",
+                ctx.where(fn.file, r_),
+                "`to_tokens` of the TryFrom<repr> expansion returns early: for the inputs taking that path no impl is generated at all (an enum with no field-less variant silently loses `TryFrom`, "
+                "where every integer must map to `Err(TryFromReprError)`)",
+                {},
+            )
     cl = None
     for c, ps in A.find(fn.block, "Expr::Closure"):
         if "discriminant" in A.render_pat(c["inputs"][0]) if c["inputs"] else False:
